@@ -12,7 +12,7 @@ import numpy
 from hypothesis import strategies as st
 
 from .. import vlog
-from ..core import Failure, drive, drive_enum
+from ..core import sstr, Failure, drive, drive_enum
 
 ID = "C20"
 LEVEL = "exploration"
@@ -429,7 +429,7 @@ def _check(case, rec, env):
     if k1 == "raises":
         return [Failure("%s|raises:%s" % (sig, type(v1).__name__), repr(v1)[:300])]
     if k1 == "error" and type(v1).__name__ not in PARAM_ERRORS:
-        fails.append(Failure("%s|error_class:%s" % (sig, type(v1).__name__), str(v1)[:200]))
+        fails.append(Failure("%s|error_class:%s" % (sig, type(v1).__name__), sstr(v1)[:200]))
     if k1 == "error":
         try:
             str(v1)
@@ -451,7 +451,7 @@ def _check(case, rec, env):
                                      "expected %s, got %s" % (want[1], got)))
         else:
             if k1 != "value":
-                fails.append(Failure("%s|expected:value|got:%s" % (sig, type(v1).__name__), "expected %r, got %s: %s" % (want[1], type(v1).__name__, str(v1)[:150])))
+                fails.append(Failure("%s|expected:value|got:%s" % (sig, type(v1).__name__), "expected %r, got %s: %s" % (want[1], type(v1).__name__, sstr(v1)[:150])))
             elif not same(v1, want[1]):
                 fails.append(Failure("%s|wrong_value" % sig, "expected %r (%s), got %r (%s)" % (want[1], type(want[1]).__name__, v1, type(v1).__name__)))
     # purity
